@@ -44,6 +44,7 @@ def strategy(tier):
         st.tuples(st.just("nan"), st.integers(0, 5), st.integers(0, 11)),
         st.tuples(st.just("nan"), st.integers(0, 5), st.integers(0, 11)),
         st.tuples(st.just("replace"), st.integers(0, 5), st.integers(0, 11), st.integers(0, 5)),
+        st.tuples(st.just("replace_nan"), st.integers(0, 5), st.integers(0, 11)),
         st.tuples(st.just("bad_mode"), st.integers(0, 5), st.integers(0, 11)),
         st.tuples(st.just("nan_kept"), st.integers(0, 5), st.integers(0, 11)),
     )
@@ -155,6 +156,14 @@ def check_case(case) -> Outcome:
             d, k = STR_NAN, non_nan[edit[2] % len(non_nan)]
             args = (feat, "group", np.nan, k)
             out.label("edit:nan:" + ("known-at-fit" if nan_known[feat] else "unknown-at-fit"))
+        elif edit[0] == "replace_nan":
+            # renaming the missing-value group of a qualitative feature
+            nan_is_leader = any(isinstance(l, str) and l == STR_NAN for l in leaders)
+            if quantitative or not nan_is_leader:
+                continue
+            d, k = STR_NAN, f"MISSING_{step}"
+            args = (feat, "replace", np.nan, k)
+            out.label("edit:replace_nan")
         else:  # replace
             if quantitative or not non_nan:
                 continue
@@ -183,7 +192,7 @@ def check_case(case) -> Outcome:
             return out
         effective += 1
         out.label(f"edit:{edit[0]}")
-        if edit[0] == "nan":
+        if edit[0] in ("nan", "replace_nan"):
             nan_known[feat] = True
             interesting = True
             if not cfg["dropna"]:
@@ -221,6 +230,23 @@ def check_case(case) -> Outcome:
             others = [i for i in range(n_b) if i not in set(rows_d + rows_k)]
             if factorize([labels_before[i] for i in others]) != factorize([labels_after[i] for i in others]):
                 out.violate(f"edit-changed-grouping-of-other-rows:{edit[0]}:{kindtag}", f"{where}: after {desc} the partition of the rows outside {d!r}/{k!r} changed")
+                return out
+        elif edit[0] == "replace_nan":
+            # missing values now carry the new name; everything else keeps its grouping
+            nan_rows = [i for i, v in enumerate(after_frame[raw].tolist()) if is_missing(v)]
+            labs = {lab_key(labels_after[i]) for i in nan_rows}
+            if ("nan",) in labs or len(labs) > 1:
+                out.violate("renamed-missing-group-not-labelled", f"{where}: after {desc} rows with missing values get {sorted(map(repr, labs))}")
+                return out
+            if cfg["output_dtype"] == "str" and labs and next(iter(labs)) != k:
+                out.violate("replace-did-not-rename-the-label", f"{where}: after {desc} missing values are labelled {labs!r}")
+                return out
+            others = [i for i in range(n_b) if i not in set(nan_rows)]
+            if factorize([labels_before[i] for i in others]) != factorize([labels_after[i] for i in others]):
+                out.violate("edit-changed-grouping-of-other-rows:replace_nan", f"{where}: after {desc} the partition of the other rows changed")
+                return out
+            if labs and any(lab_key(labels_after[i]) in labs for i in others):
+                out.violate("merged-label-shared-with-other-rows:replace_nan", f"{where}: after {desc} non-missing rows share the missing group's label")
                 return out
         else:
             if factorize(labels_before) != factorize(labels_after[:n_b]):
